@@ -135,6 +135,10 @@ Definition judge_learn_snap (sn : snap) : verdict :=
 
 (* ---- kind 1 : cuttingPlanes ---------------------------------------------------------------------------------- *)
 
+(* The literals a call propagates are compared as a multiset: they all go on the trail at the same level with the same
+   reason, in an order that follows the order of the terms of the derived constraint, which no property speaks of (a
+   harmless rewrite that sorts ties differently, R4-H2, was reported as differs-from-model while the order was compared). *)
+
 (* terms as a canonical list: sorted by literal (insertion sort) *)
 Fixpoint ins_term (t : term) (l : list term) : list term :=
   match l with
@@ -159,10 +163,10 @@ Definition judge_cp_snap (sn : snap) : verdict :=
         | CPPanic | CPPanicArith => negb (sn_done sn)
         | CPFuel => false
         | CPUnsat => sn_done sn && (sn_newlvl sn =? -1)
-        | CPUnits us => sn_done sn && (sn_newlvl sn =? 1) && eqb_Zs us (sn_props sn) &&
+        | CPUnits us => sn_done sn && (sn_newlvl sn =? 1) && eqb_Zs (sort_Zs us) (sort_Zs (sn_props sn)) &&
                         match sn_learnt sn with [] => true | _ => false end
         | CPLearn c props nl =>
-          sn_done sn && (sn_newlvl sn =? nl) && eqb_Zs props (sn_props sn) &&
+          sn_done sn && (sn_newlvl sn =? nl) && eqb_Zs (sort_Zs props) (sort_Zs (sn_props sn)) &&
           match sn_learnt sn with
           | card :: r => match pair_terms r with Some ts => same_constr c (PBC ts card) | None => false end
           | [] => false
